@@ -52,7 +52,7 @@ TDoBefore == \E b \in HookOuts, w \in HookWrites : (w = <<>> \/ Len(w) = NV) /\ 
 TDoPass   == \E o \in PassOuts : TPass(o)
 TDoAfter  == \E a \in HookOuts, w \in HookWrites : (w = <<>> \/ Len(w) = NV) /\ TAfter(a, w)
 
-TNext == TStart \/ Plain(GuardMinMax) \/ Plain(OffsetStep) \/ Plain(PreCheck) \/ TDoBefore \/ Plain(LoopHead)
+TNext == TStart \/ Plain(GuardMinMax) \/ Plain(GuardFeasible) \/ Plain(OffsetStep) \/ Plain(PreCheck) \/ TDoBefore \/ Plain(LoopHead)
          \/ TDoPass \/ Plain(Judge) \/ TDoAfter \/ Plain(Stamp) \/ Plain(Return)
 
 TSpec == TInit /\ [][TNext]_tvars
